@@ -1,3 +1,293 @@
 import GnpyModel
-/- Property theorems for C17 (only the property theorems and their non-vacuity examples live here;
-   helper lemmas go to GnpyProofs/Lemmas). -/
+import GnpyProofs.Lemmas.Redesign
+import GnpyProofs.Props.C08
+import GnpyProofs.Props.C09
+/- Property theorems for C17 — designing is repeatable: export, reload and redesign changes nothing; the simulation
+   parameters are left as found.  Models: GnpyModel/Redesign.lean on top of Chain.lean / Design.lean. -/
+namespace Gnpy.Chain
+
+set_option linter.unusedSectionVars false
+
+/-! ### the design is a function of its input -/
+
+/-- designing the same input twice gives the same output (the model is a function; what lives in object identity —
+shared equipment objects, cached attributes — is checked by the monitor only) -/
+theorem design_deterministic (c c' : Cfg ℝ) (pref prefTotal src : ℝ) (d : Bool) (l l' : List (Elem ℝ))
+    (s s' : List (Sel ℝ)) (hc : c = c') (hl : l = l') (hs : s = s') :
+    designLine c pref prefTotal src d l s = designLine c' pref prefTotal src d l' s' := by
+  subst hc; subst hl; subst hs; rfl
+
+/-! ### completing a completed line changes nothing -/
+
+section
+variable {α : Type} [Add α] [Sub α] [Mul α] [Div α] [Neg α] [NatCast α] [LT α] [LE α]
+  [DecidableLT α] [DecidableLE α] [Transc α]
+
+/-- no new in-line amplifier where no fibre follows a fibre -/
+theorem addInline_fixpoint (l : List (Elem α)) (h : NoAdjFib l) : addInline l = l := by
+  induction l with
+  | nil => simp [addInline]
+  | cons x rest ih =>
+    unfold NoAdjFib at h
+    have ht : NoAdjFib rest := (List.isChain_cons.mp h).2
+    simp only [addInline]
+    split
+    · rename_i u p v q t
+      have := (List.isChain_cons_cons.mp h).1
+      simp [Elem.isFiber] at this
+    · rw [ih ht]
+
+/-- fibres shorter than `max_length` are not split again -/
+theorem split_fixpoint (c : SplitCfg α) (l : List (Elem α))
+    (h : ∀ u p, Elem.fiber u p ∈ l → p.length < c.hi) : splitLine c l = l := by
+  induction l with
+  | nil => simp [splitLine]
+  | cons x rest ih =>
+    have hr : splitLine c rest = rest := ih (fun u p hm => h u p (List.mem_cons_of_mem _ hm))
+    simp only [splitLine, List.flatMap_cons] at hr ⊢
+    rw [hr]
+    cases x with
+    | fiber u p =>
+      have hlt := h u p (by simp)
+      simp [splitElem, splitFiber, calcNewLength, calcWith, hlt]
+    | fused u l => simp [splitElem]
+    | edfa u p => simp [splitElem]
+
+/-- **`add_missing_elements_in_network` is idempotent on a completed line** (all spans below `max_length`, no fibre
+next to a fibre or to a ROADM): a reloaded design receives no new element -/
+theorem addMissing_fixpoint (c : SplitCfg α) (ch : Chain α)
+    (hlen : ∀ u p, Elem.fiber u p ∈ ch.line → p.length < c.hi)
+    (hadj : NoAdjFib ch.line)
+    (hhead : ch.srcKind = .roadm → ∀ e t, ch.line = e :: t → e.isFiber = false)
+    (hlast : ch.dstKind = .roadm → ∀ e, ch.line.getLast? = some e → e.isFiber = false) :
+    addMissingLine c ch = ch.line := by
+  unfold addMissingLine
+  rw [split_fixpoint c ch.line hlen]
+  have hp : addPreamp ch.dst ch.dstKind ch.line = ch.line := by
+    cases hk : ch.dstKind with
+    | trx => simp [addPreamp]
+    | roadm =>
+      cases hl : ch.line.getLast? with
+      | none => simp [addPreamp, hl]
+      | some e => exact (junction_exceptions ch.src ch.dst ch.line).2.2.2 e hl (hlast hk e hl)
+  rw [hp]
+  have hb : addBooster ch.src ch.srcKind ch.line = ch.line := by
+    cases hk : ch.srcKind with
+    | trx => simp [addBooster]
+    | roadm =>
+      cases hl : ch.line with
+      | nil => simp [addBooster]
+      | cons e t =>
+        have := (junction_exceptions ch.src ch.dst ch.line).2.2.1 e t hl (hhead hk e t hl)
+        rw [hl] at this; exact this
+  rw [hb]
+  exact addInline_fixpoint _ hadj
+
+end
+
+/-- **with EOL = 0 `add_connector_loss` leaves defined connectors alone** -/
+theorem addConn_fixpoint (dIn dOut : ℝ) (l : List (Elem ℝ)) (h : ∀ e ∈ l, ConnOK e) : addConn dIn dOut 0 l = l := by
+  induction l with
+  | nil => simp [addConn]
+  | cons x rest ih =>
+    have hr := ih (fun e he => h e (List.mem_cons_of_mem _ he))
+    simp only [addConn, hr]
+    cases x with
+    | fiber u p =>
+      have hx := h (.fiber u p) (by simp)
+      simp only [ConnOK] at hx
+      obtain ⟨ci, hci⟩ := Option.isSome_iff_exists.mp hx.1
+      obtain ⟨co, hco⟩ := Option.isSome_iff_exists.mp hx.2
+      cases rest with
+      | nil => cases p; simp_all
+      | cons y t => cases y <;> cases p <;> simp_all
+    | fused u l => rfl
+    | edfa u p => rfl
+
+/-- padding a padded span again changes nothing (with or without a user `att_in`) -/
+theorem padding_fixpoint (padding : ℝ) (r : List (Elem ℝ)) (u : String) (p : FiberP ℝ) (v : String) (q : FiberP ℝ)
+    (t : List (Elem ℝ)) (hr : r = .fiber v q :: t) (hl : r.getLast? = some (.fiber u p)) (hnr : p.raman = false) :
+    padRun padding (padRun padding r) = padRun padding r :=
+  padRun_idempotent padding r u p v q t hr hl hnr
+
+/-! ### the amplifier recurrence re-derives the exported operating point -/
+
+/-- one amplifier: fed with its own exported settings (selected type_variety, gain, delta_p, out_voa, in_voa) and the
+same incoming net offset, `set_one_amplifier` returns the same operating point — provided the first design left
+the amplifier at or below p_max (both modes) -/
+theorem ampStep_fixpoint (c : Cfg ℝ) (pref prefTotal pd pv pd' pv' : ℝ) (a : AmpIn ℝ)
+    (hoff : pd' - pv' = pd - pv)
+    (hfitP : c.powerMode = true → prefTotal + (ampStep c pref prefTotal pd pv a).dpInt ≤ a.sel.pMax)
+    (hfitG : c.powerMode = false →
+      prefTotal + pd - a.nodeLoss - pv + (ampStep c pref prefTotal pd pv a).gain ≤ a.sel.pMax) :
+    SamePoint (ampStep c pref prefTotal pd pv a)
+      (ampStep c pref prefTotal pd' pv' (reuseAmp a (ampStep c pref prefTotal pd pv a))) ∧
+    (ampStep c pref prefTotal pd' pv' (reuseAmp a (ampStep c pref prefTotal pd pv a))).retDp
+      - (ampStep c pref prefTotal pd' pv' (reuseAmp a (ampStep c pref prefTotal pd pv a))).retVoa
+      = (ampStep c pref prefTotal pd pv a).retDp - (ampStep c pref prefTotal pd pv a).retVoa := by
+  have hb := gain_closes_budget c pref prefTotal pd pv a
+  have hn := net_offset c pref prefTotal pd pv a
+  obtain ⟨hdP, hdG⟩ := deltaP_spec c pref prefTotal pd pv a
+  have hiv : (ampStep c pref prefTotal pd pv a).inVoa = a.user.inVoa.getD 0 := by simp [ampStep]
+  generalize ampStep c pref prefTotal pd pv a = o at *
+  have hvar := reuse_variety a.user.variety
+  have hpd : pd' = pd - pv + pv' := by linarith
+  cases hm : c.powerMode with
+  | true =>
+    have hd := hdP hm
+    have hf := hfitP hm
+    have key : SamePoint o (ampStep c pref prefTotal pd' pv' (reuseAmp a o)) ∧
+        (ampStep c pref prefTotal pd' pv' (reuseAmp a o)).retDp = o.dpInt ∧
+        (ampStep c pref prefTotal pd' pv' (reuseAmp a o)).retVoa = o.outVoa := by
+      simp only [SamePoint, ampStep, computeTargets, powerReduction, reuseAmp, hm, hd, hvar, truthy_eq, pmin_eq,
+        Option.getD_some, Option.isNone_some, Bool.false_and, Bool.false_eq_true, if_false, if_true, Nat.cast_zero]
+      rw [min_eq_left (by linarith)]
+      refine ⟨⟨?_, ?_, ?_, ?_, ?_⟩, ?_, ?_⟩ <;> first | (simp; done) | (simp; linarith)
+    exact ⟨key.1, by rw [key.2.1, key.2.2]; linarith⟩
+  | false =>
+    have hd := hdG hm
+    have hf := hfitG hm
+    have key : SamePoint o (ampStep c pref prefTotal pd' pv' (reuseAmp a o)) ∧
+        (ampStep c pref prefTotal pd' pv' (reuseAmp a o)).retDp = o.dpInt ∧
+        (ampStep c pref prefTotal pd' pv' (reuseAmp a o)).retVoa = o.outVoa := by
+      simp only [SamePoint, ampStep, computeTargets, powerReduction, reuseAmp, hm, hd, hvar, truthy_eq, pmin_eq,
+        Option.getD_some, Option.isNone_some, Bool.false_and, Bool.false_eq_true, if_false, Nat.cast_zero]
+      rw [min_eq_left (by linarith)]
+      refine ⟨⟨?_, ?_, ?_, ?_, ?_⟩, ?_, ?_⟩ <;> first | (simp; done) | (simp; linarith)
+    exact ⟨key.1, by rw [key.2.1, key.2.2]; linarith⟩
+
+/-- **Redesign fixpoint (EOL = 0, export not rounded).** Along any OMS, the second design walk — every amplifier
+carrying the operating point the first design exported, the spans unchanged (`addMissing_fixpoint`,
+`addConn_fixpoint`, `padding_fixpoint`) — re-derives gain, `_delta_p`, `delta_p`, `out_voa` and `in_voa` of every
+amplifier, whatever the mix of user settings, provided no amplifier was left above p_max (`FitsAll`). -/
+theorem redesign_fixpoint (c : Cfg ℝ) (pref prefTotal : ℝ) :
+    ∀ (inputs : List (AmpIn ℝ)) (pd pv pd' pv' : ℝ), pd' - pv' = pd - pv → FitsAll c pref prefTotal pd pv inputs →
+      ∀ oo ∈ redesignAmps c pref prefTotal pd pv pd' pv' inputs, SamePoint oo.1 oo.2 := by
+  intro inputs
+  induction inputs with
+  | nil => intro pd pv pd' pv' _ _ oo h; simp [redesignAmps] at h
+  | cons a rest ih =>
+    intro pd pv pd' pv' hoff hfit oo hmem
+    simp only [FitsAll] at hfit
+    obtain ⟨hP, hG, hrest⟩ := hfit
+    obtain ⟨hsame, hnext⟩ := ampStep_fixpoint c pref prefTotal pd pv pd' pv' a hoff hP hG
+    simp only [redesignAmps, List.mem_cons] at hmem
+    rcases hmem with h | h
+    · subst h; exact hsame
+    · exact ih _ _ _ _ hnext hrest oo h
+
+/-- size of the export rounding (partial: see PARTIAL in harness/props/c17.py): gains are written with an error of at
+most 5e-7 dB, span lengths with at most 0.5 mm, loss coefficients with at most 5e-10 dB/m -/
+theorem export_rounding_partial (x : ℝ) (p : FiberP ℝ) :
+    |round6 x - x| ≤ 1 / 2000000 ∧ |(exportFiber p).length - p.length| ≤ 1 / 2000 ∧
+    |(exportFiber p).lossCoef - p.lossCoef| ≤ 1 / 2000000000 := by
+  refine ⟨round6_error x, ?_, ?_⟩
+  · simp only [exportFiber, thousand, Nat.cast_ofNat]
+    have h := round6_error (p.length / 1000)
+    rw [abs_le] at h ⊢
+    constructor
+    · have : round6 (p.length / 1000) * 1000 - p.length = (round6 (p.length / 1000) - p.length / 1000) * 1000 := by ring
+      rw [this]; linarith [h.1]
+    · have : round6 (p.length / 1000) * 1000 - p.length = (round6 (p.length / 1000) - p.length / 1000) * 1000 := by ring
+      rw [this]; linarith [h.2]
+  · simp only [exportFiber, thousand, Nat.cast_ofNat]
+    have h := round6_error (p.lossCoef * 1000)
+    rw [abs_le] at h ⊢
+    constructor
+    · have : round6 (p.lossCoef * 1000) / 1000 - p.lossCoef = (round6 (p.lossCoef * 1000) - p.lossCoef * 1000) / 1000 := by
+        ring
+      rw [this]; linarith [h.1]
+    · have : round6 (p.lossCoef * 1000) / 1000 - p.lossCoef = (round6 (p.lossCoef * 1000) - p.lossCoef * 1000) / 1000 := by
+        ring
+      rw [this]; linarith [h.2]
+
+/-! ### K1: with EOL ≠ 0 every round adds EOL again -/
+
+/-- each pass of `add_connector_loss` over a fibre that is not followed by a Fused adds `EOL` to its `con_out` -/
+theorem redesign_eol_drift (dIn dOut eol co : ℝ) (u : String) (p : FiberP ℝ) (hco : p.conOut = some co) :
+    addConn dIn dOut eol [.fiber u p]
+      = [.fiber u { p with conIn := some (p.conIn.getD dIn), conOut := some (co + eol) }] := by
+  simp [addConn, hco]
+
+/-- **Current code (known finding K1):** EOL = 1 dB — the fibre leaves the first design with con_out = 1, the
+redesign of the exported network with con_out = 2: `add_connector_loss` is not idempotent -/
+theorem redesign_eol_counterexample :
+    ∃ (l : List (Elem ℝ)), addConn 0 0 1 (addConn 0 0 1 l) ≠ addConn 0 0 1 l ∧
+      (addConn 0 0 1 l).map Elem.loss = [17] ∧ (addConn 0 0 1 (addConn 0 0 1 l)).map Elem.loss = [18] := by
+  refine ⟨[.fiber "f" { length := 80, lossCoef := 0.2, conIn := none, conOut := none, attIn := 0, lumped := 0,
+                        raman := false, ramanGain := none, dsl := none }], ?_, ?_, ?_⟩
+  · simp [addConn]
+  · simp [addConn, Elem.loss, FiberP.loss]; norm_num
+  · simp [addConn, Elem.loss, FiberP.loss]; norm_num
+
+/-! ### SimParams -/
+
+/-- **`estimate_raman_gain` leaves the simulation parameters as it found them**: restore ∘ save = id on all ten fields,
+for every state whose NLI method is in lower case (every state built by `set_params` is) -/
+theorem simparams_restored (lower : String → String) (dflt : SimState) (ramanOn : RamanParams) (s : SimState)
+    (hs : lower s.nli.method = s.nli.method) :
+    (estimateRamanGainParams lower dflt ramanOn s).2 = s := by
+  cases s with
+  | mk n r =>
+    cases n
+    simp only [estimateRamanGainParams, setParams, saveParams, mkNLI, mkRaman] at hs ⊢
+    simp_all
+
+/-- … for ANY prior setting made through `SimParams.set_params` (complete, partial or empty) -/
+theorem simparams_restored_any_prior (lower : String → String) (hl : ∀ m, lower (lower m) = lower m)
+    (dflt : SimState) (hd : lower dflt.nli.method = dflt.nli.method) (ramanOn : RamanParams)
+    (n : Option NLIParams) (r : Option RamanParams) :
+    (estimateRamanGainParams lower dflt ramanOn (setParams lower dflt n r)).2 = setParams lower dflt n r := by
+  apply simparams_restored
+  cases n with
+  | none => simpa [setParams] using hd
+  | some x => simp [setParams, mkNLI, hl]
+
+/-- … and for any number of RamanFibers estimated one after the other -/
+theorem simparams_restored_many (lower : String → String) (dflt : SimState) (ramanOn : RamanParams) (k : Nat)
+    (s : SimState) (hs : lower s.nli.method = s.nli.method) :
+    estimateMany lower dflt ramanOn k s = s := by
+  induction k with
+  | zero => rfl
+  | succ k ih =>
+    simp only [estimateMany]
+    rw [simparams_restored lower dflt ramanOn s hs]
+    exact ih
+
+/-- what the solver sees in between: the Raman settings of the estimate, default NLI settings -/
+theorem simparams_during (lower : String → String) (dflt : SimState) (ramanOn : RamanParams) (s : SimState) :
+    (estimateRamanGainParams lower dflt ramanOn s).1 = { nli := dflt.nli, raman := ramanOn } := by
+  simp [estimateRamanGainParams, setParams, mkRaman]
+
+/-- a document whose connections mention an element that is not in it is rejected on reload (malformed stream) -/
+theorem reload_rejects_dangling (uids : List String) (cxs : List (String × String)) (c : String × String)
+    (hc : c ∈ cxs) (hmiss : c.1 ∉ uids ∨ c.2 ∉ uids) : reloadAccepts uids cxs = false := by
+  unfold reloadAccepts
+  rw [List.all_eq_false]
+  refine ⟨c, hc, ?_⟩
+  rcases hmiss with h | h <;> simp [h]
+
+/-! ### non-vacuity -/
+
+/-- `FitsAll` and the offset hypothesis of `redesign_fixpoint` hold for a two-amplifier OMS (auto booster, preamp) -/
+example : ∃ (c : Cfg ℝ) (inputs : List (AmpIn ℝ)), inputs.length = 2 ∧ FitsAll c 0 18 (-20) 0 inputs := by
+  let c : Cfg ℝ := { powerMode := true, dpLo := 0, dpHi := 0, dpStep := 0, lossRef := 20, slope := 0.3,
+                     voaMargin := 1, voaStep := 0.5, extGain := 2.5 }
+  let a1 : AmpIn ℝ := { user := newEdfa, sel := { pMax := 23, gainFlatmax := 26, outVoaAuto := false },
+                        nodeLoss := 0, nextIsRoadm := true, nextLoss := 16 }
+  refine ⟨c, [a1, a1], rfl, ?_⟩
+  have hdec : ("" == "") = true := by decide
+  simp only [FitsAll, ampStep, computeTargets, powerReduction, targetPower, truthy_eq, pmin_eq, pmax_eq, c, a1,
+    newEdfa, hdec]
+  norm_num
+
+/-- the hypotheses of the SimParams theorems are satisfiable (an idempotent lower-casing that fixes the default method
+name) and the restored state is a non-default one -/
+example : ∃ (lower : String → String) (dflt : SimState) (n : NLIParams) (r : RamanParams),
+    (∀ m, lower (lower m) = lower m) ∧ lower dflt.nli.method = dflt.nli.method ∧
+    setParams lower dflt (some n) (some r) ≠ dflt := by
+  refine ⟨id, ⟨⟨"gn_model_analytic", 4, 1, none, none⟩, ⟨false, "perturbative", 2, 10000, 10000⟩⟩,
+          ⟨"ggn_spectrally_separated", 4, 1, some [1, 5], none⟩, ⟨true, "perturbative", 1, 10000, 100⟩,
+          fun _ => rfl, rfl, by decide⟩
+
+end Gnpy.Chain
